@@ -83,7 +83,7 @@ def compile_rust(name, source, cfg, side=None, files=None):
     """Compile `source` as <hash>/<name>.rs with cfg; returns Binary. Cached."""
     h = common.sha(name, source, cfg.key(), *[f'{k}\0{v}' for k, v in sorted((files or {}).items())])[:16]
     d = os.path.join(BUILD, f'{name}-{h}')
-    out = os.path.join(d, name if cfg.crate_type == 'bin' else f'lib{name}.so')
+    out = os.path.join(d, name if cfg.crate_type == 'bin' else (f'lib{name}.rlib' if cfg.crate_type == 'rlib' else f'lib{name}.so'))
     b = Binary(d, name, cfg, side)
     b.path = out
     okf = os.path.join(d, '.ok')
